@@ -12,7 +12,7 @@ TIME_LIMIT = {'quick': 50, 'thorough': 800}
 RULE = ('datasets of shape () to 3-d (1-60 bins), 1-3 compared datasets drawn around the reference at 0-6 sigma, errors '
         '>= 0 with zeros (0/0 bins included) and, in 10% of the cases, strictly positive errors whose squares underflow, '
         'integer-valued datasets given as integer arrays (15%), NaN and infinities injected in values and errors of either side, alpha '
-        'log-uniform in (1e-4, 1), ndf None or 1-10000; each case also evaluated swapped, rescaled by a power of two, with '
+        'log-uniform in (1e-4, 1), ndf None, 1-10000 or non-integral (1.5, 2.75, uniform in 1-40); critical value and p-values recomputed independently; each case also evaluated swapped, rescaled by a power of two, with '
         'one difference grown and one error shrunk; non-trivial = some but not all bins compatible, or a special value; '
         'distinct = case hash')
 CORRESPONDS = ('Model/Student.lean (tStat with its three conventions, oracle, verdict, pDecision) vs '
@@ -35,7 +35,9 @@ def gen(rng, tier, run):
         size *= n
     nds = rng.choice([1, 1, 2, 3])
     alpha = 10 ** rng.uniform(-4, -0.02) if rng.random() < 0.8 else rng.choice([0.01, 0.05, 0.5])
-    ndf = None if rng.random() < 0.5 else rng.choice([1, 2, 5, 30, 1000, rng.randrange(1, 10000)])
+    ndf = None if rng.random() < 0.5 else rng.choice([1, 2, 5, 30, 1000, rng.randrange(1, 10000),
+                                                      # degrees of freedom need not be whole numbers (Welch-Satterthwaite)
+                                                      1.5, 2.75, round(rng.uniform(1.0, 40.0), 2)])
     spread = rng.choice([0.5, 1.0, 2.0, 3.0, 6.0, 6.0, 12.0, 40.0])
     special = rng.random() < 0.35
 
@@ -185,6 +187,8 @@ def run_impl(case, run):
         from scipy.stats import norm, t as tlaw
         law = norm if ndf is None else tlaw(ndf)
         thr = unbits(out['thr'])
+        # the critical value is the two-sided one of the requested law (independent recomputation)
+        out['thr_want'] = bits(float(law.ppf(1.0 - alpha / 2.0)))
         # the p-values are the two-sided tails of the statistic (independent recomputation)
         bad_p = []
         for di, (ts, ps) in enumerate(zip(out['t'], out['p'])):
@@ -343,6 +347,12 @@ def oracle(case, impl, run):
             fails.append(('monotone_err', f'bin {i}: rejected, accepted after an error shrank'))
     law = impl.get('law')
     if law:
+        if 'thr_want' in impl:
+            want_thr = unbits(impl['thr_want'])
+            if not (thr == want_thr or abs(thr - want_thr) <= 1e-9 * abs(want_thr)):
+                fails.append(('critical_value_of_requested_law',
+                              f"critical value {thr} used for alpha={case['alpha']}, ndf={case['ndf']}; the two-sided "
+                              f'critical value of that law is {want_thr}'))
         for di, bi, tval, pval, want in impl.get('bad_p', []):
             fails.append(('pvalue_is_two_sided_tail', f'dataset {di} bin {bi}: t = {tval!r}, p-value {pval!r}, two-sided tail {want!r}'))
         if impl.get('edited_same') is False:
